@@ -209,6 +209,31 @@ def harness(cx, cfg):
                     cx.check_eq("%s hands the same arguments to the inverse functions as euler(select=%d)" % (nm, names[nm]), u, v)
             cx.drop_obligations("euler's own domain conditions are decided in the euler configurations")
             return
+        if what == "rotate_inverse":
+            # rotate(phi, theta, psi) is undone by rotate(psi, -theta, phi) (the third angle enters with the
+            # opposite sign in this function's zxz convention): the direction comes back
+            phi, theta, psi = trig.angle("phi"), trig.angle("theta"), trig.angle("psi")
+            ra = trig.angle("ra0")
+            dec = trig.angle("dec0", -90, 90)
+            sd, cd = trig.pair("dec0")
+            sr, cr = trig.pair("ra0")
+            cx.assume(cd > 0)
+            r1, d1 = co.rotate(phi, theta, psi, ra, dec)
+            S.log[:] = []
+            r2, d2 = co.rotate(psi, -theta, phi, r1, d1)
+            probes = {p[0]: p for p in S.log}
+            if "arcsin" in probes and "arctan2" in probes:
+                x, y, b = probes["arctan2"][2], probes["arctan2"][1], _leaf(probes["arcsin"][1])
+            else:
+                # a path without inverse functions (a shortcut): the direction of the returned angles
+                s2, c2 = trig.sincos(trig.deg2rad(r2 if not hasattr(r2, "tolist") else r2.tolist()[0]))
+                sb2, cb2 = trig.sincos(trig.deg2rad(d2 if not hasattr(d2, "tolist") else d2.tolist()[0]))
+                x, y, b = c2 * cb2, s2 * cb2, sb2
+            cx.check_eq("rotate(psi, -theta, phi) undoes rotate(phi, theta, psi): x of the direction", x, cr * cd)
+            cx.check_eq("rotate(psi, -theta, phi) undoes rotate(phi, theta, psi): y of the direction", y, sr * cd)
+            cx.check_eq("rotate(psi, -theta, phi) undoes rotate(phi, theta, psi): z of the direction", b, sd)
+            cx.drop_obligations("domain conditions of rotate are decided in the rotate configuration")
+            return
         if what in ("rotate", "rotate_iso"):
             phi, theta, psi = trig.angle("phi"), trig.angle("theta"), trig.angle("psi")
             npts = 2 if what == "rotate_iso" else 1
@@ -222,6 +247,12 @@ def harness(cx, cfg):
                 S.log[:] = []
                 r = co.rotate(phi, theta, psi, ras[i], decs[i])
                 probes = {p[0]: p for p in S.log}
+                if "arctan2" not in probes or "arcsin" not in probes:
+                    # a path that never forms the rotated vector (a special-cased angle): settled by the replay,
+                    # which compares with the general formula, the inverse rotation and neighbouring angles
+                    cx.fail("rotate: a path returns without computing the rotated vector (special-cased Euler angle)")
+                    cx.drop_obligations("special-cased path")
+                    return
                 vecs.append((probes["arctan2"][2], probes["arctan2"][1], probes["arcsin"][1]))
                 outs.append(r)
             # the clip b > 1 -> 1 is a no-op for a true rotation: |b| <= 1 proved via x^2+y^2+b_raw^2 = 1
@@ -502,10 +533,14 @@ def replay(cand):
         co.atbound2(a, b)
         if not (-90 <= a[0] <= 90 and 0 <= b[0] <= 360) or _sep(ph, th if abs(th) <= 90 else (180 - th if th > 0 else -180 - th), b[0], a[0]) > 1e-6 and abs(abs(a[0]) - 90) > 1e-9 and False:
             return {"reproduced": True, "key": "atbound2", "what": "atbound2(%r, %r) -> %r, %r" % (th, ph, a[0], b[0])}
-        v1 = (math.cos(math.radians(th)) * math.cos(math.radians(ph)), math.cos(math.radians(th)) * math.sin(math.radians(ph)), math.sin(math.radians(th)))
-        v2 = (math.cos(math.radians(a[0])) * math.cos(math.radians(b[0])), math.cos(math.radians(a[0])) * math.sin(math.radians(b[0])), math.sin(math.radians(a[0])))
-        if max(abs(p - q) for p, q in zip(v1, v2)) > 1e-9:
-            return {"reproduced": True, "key": "atbound2", "what": "atbound2(%r, %r) -> (%r, %r): a different direction" % (th, ph, a[0], b[0])}
+        # the model's point and points just off the poles (the longitude there is only degenerate exactly at +-90)
+        for th_, ph_ in ((th, ph), (89.9995, 123.0), (-89.9992, 200.0), (90.0007, 41.0), (269.9994, 310.0), (89.9999999, 77.0)):
+            a, b = np.array([th_]), np.array([ph_])
+            co.atbound2(a, b)
+            v1 = (math.cos(math.radians(th_)) * math.cos(math.radians(ph_)), math.cos(math.radians(th_)) * math.sin(math.radians(ph_)), math.sin(math.radians(th_)))
+            v2 = (math.cos(math.radians(a[0])) * math.cos(math.radians(b[0])), math.cos(math.radians(a[0])) * math.sin(math.radians(b[0])), math.sin(math.radians(a[0])))
+            if not (-90 <= a[0] <= 90 and 0 <= b[0] <= 360) or max(abs(p - q) for p, q in zip(v1, v2)) > 1e-9:
+                return {"reproduced": True, "key": "atbound2", "what": "atbound2(%r, %r) -> (%r, %r): a different direction" % (th_, ph_, a[0], b[0])}
         return no
     if what == "tables":
         return no
@@ -558,6 +593,20 @@ def replay(cand):
         pts = [(trig.model_angle(mdl, "ra0") % 360, max(-90.0, min(90.0, trig.model_angle(mdl, "dec0")))),
                (trig.model_angle(mdl, "ra1") % 360 if "ra1!s" in mdl else 33.0, max(-90.0, min(90.0, trig.model_angle(mdl, "dec1"))) if "dec1!s" in mdl else -12.0)]
         outs = []
+        # special angles next to the model's: a shortcut for theta = 0 (or any multiple of 90 degrees) must agree
+        # with the general formula, be undone by rotate(psi, -theta, phi) and be continuous in theta
+        for th in (theta, 0.0, 90.0, 180.0):
+            for ph, ps in ((phi, psi), (25.0, 40.0), (0.0, 77.0), (130.0, 0.0)):
+                for ra, dec in pts:
+                    r, d = co.rotate(ph, th, ps, ra, dec)
+                    rb, db = co.rotate(ps, -th, ph, r, d)
+                    if abs(dec) < 89.9 and abs(float(d)) < 89.9 and _sep(ra, dec, float(rb), float(db)) > 1e-8:
+                        return {"reproduced": True, "key": "rotate:inverse",
+                                "what": "rotate(%r, %r, %r) followed by rotate(%r, %r, %r) maps (%r, %r) to (%r, %r)" % (ph, th, ps, ps, -th, ph, ra, dec, float(rb), float(db))}
+                    rn, dn = co.rotate(ph, th + 1e-7, ps, ra, dec)
+                    if abs(float(d)) < 89.9 and _sep(float(r), float(d), float(rn), float(dn)) > 1e-5:
+                        return {"reproduced": True, "key": "rotate:continuity",
+                                "what": "rotate(%r, theta, %r) jumps at theta = %r: (%r, %r) -> (%r, %r) vs (%r, %r) for theta + 1e-7" % (ph, ps, th, ra, dec, float(r), float(d), float(rn), float(dn))}
         for ra, dec in pts:
             r, d = co.rotate(phi, theta, psi, ra, dec)
             if not (np.isfinite(r) and np.isfinite(d) and 0 <= r < 360 + 1e-9 and -90 <= d <= 90):
